@@ -83,7 +83,7 @@ def run(shard, rec):
                 rec.count('loop_iterations', w.steps)
                 rec.seen('policies', policy)
                 sig = w.sched_sig()
-                feats = {'asymmetric_yield': progs.timing_skew(spec), 'deferred_bump': bool(w.deferred_bumps)}      # any source of timing skew between the parties (F-C08-1's condition)
+                feats = {'asymmetric_yield': spec.get('sleepy') is not None or (no_prss and progs.timing_skew(spec)), 'deferred_bump': bool(w.deferred_bumps)}      # F-C08-1's condition: one party yields, or (F-C01-2) without PRSS a public/opened value is awaited mid-program
                 for site in w.deferred_bumps:
                     rec.seen('deferred_toplevel_pc_bump_sites', f'{site[0]} -> {site[1]}')
                 problems = runner.judge_completion(w) + runner.judge_outputs(w, expected)
